@@ -1,6 +1,6 @@
 //! C18 — the three input syntaxes and insignificant source variations agree.
 
-use crate::corpus::corpus;
+use crate::corpus::{corpus, fuzz_corpus};
 use crate::engine::*;
 use crate::gen::chooser::{choices, Chooser};
 use crate::gen::plaincss::{gen_css, SASS_ONLY};
@@ -38,16 +38,29 @@ pub struct Case {
 #[derive(Clone, Debug)]
 enum Src {
     Corpus(u16),
+    /// thorough tier only: an SCSS input harvested from the coverage-guided campaign
+    Fuzz(u16),
     Sheet(Vec<u16>),
     Tree(ruletree::Tree),
 }
 
-fn src() -> impl Strategy<Value = Src> {
-    prop_oneof![
-        3 => any::<u16>().prop_map(Src::Corpus),
-        3 => choices(140).prop_map(Src::Sheet),
-        2 => ruletree::tree().prop_map(Src::Tree),
-    ]
+fn src(tier: Tier) -> BoxedStrategy<Src> {
+    if tier == Tier::Thorough && !fuzz_scss().is_empty() {
+        prop_oneof![
+            3 => any::<u16>().prop_map(Src::Corpus),
+            3 => any::<u16>().prop_map(Src::Fuzz),
+            3 => choices(140).prop_map(Src::Sheet),
+            2 => ruletree::tree().prop_map(Src::Tree),
+        ]
+        .boxed()
+    } else {
+        prop_oneof![
+            3 => any::<u16>().prop_map(Src::Corpus),
+            3 => choices(140).prop_map(Src::Sheet),
+            2 => ruletree::tree().prop_map(Src::Tree),
+        ]
+        .boxed()
+    }
 }
 
 fn scss_corpus() -> Vec<usize> {
@@ -59,8 +72,24 @@ fn scss_corpus() -> Vec<usize> {
         .collect()
 }
 
+fn fuzz_scss() -> &'static Vec<usize> {
+    static F: std::sync::OnceLock<Vec<usize>> = std::sync::OnceLock::new();
+    F.get_or_init(|| {
+        fuzz_corpus()
+            .iter()
+            .enumerate()
+            .filter(|(_, e)| e.syntax == "scss" && !e.uses_random() && crate::gen::text::bracket_depth(&e.input) < 60)
+            .map(|(i, _)| i)
+            .collect()
+    })
+}
+
 fn realize(s: &Src) -> (String, &'static str) {
     match s {
+        Src::Fuzz(i) => {
+            let v = fuzz_scss();
+            (fuzz_corpus()[v[idx(*i, v.len())]].input.clone(), "fuzz-corpus")
+        }
         Src::Corpus(i) => {
             let v = scss_corpus();
             (corpus()[v[idx(*i, v.len())]].input.clone(), "corpus")
@@ -179,7 +208,7 @@ impl Prop for C18 {
             let b = format!("{}{}{}", &css[..at], snip, &css[at..]);
             mk("sass-only-rejected-in-css", css, Syntax::Css, b, Syntax::Css, "b-fails", false, 5, name)
         });
-        let rewrites = (src(), any::<u8>(), choices(200), any::<bool>()).prop_map(|(s, kind, ch, compressed)| {
+        let rewrites = (src(tier), any::<u8>(), choices(200), any::<bool>()).prop_map(|(s, kind, ch, compressed)| {
             let (a, class) = realize(&s);
             let mut c = Chooser::new(&ch);
             match kind % 9 {
